@@ -12,7 +12,7 @@
 (*    Layout(Optimize(tree)), and the Eval machine run on the REAL program  *)
 (*    against the observed result and effects:  <<"DRIFT", ...>>.          *)
 (***************************************************************************)
-EXTENDS Machine, Json, IOUtils
+EXTENDS Machine, Parser, Json, IOUtils
 
 Trace == ndJsonDeserialize(IOEnv.OBS)
 
@@ -27,7 +27,7 @@ StdCfg(v) == [stateless |-> {"p"}, costs |-> <<>>]
 \* ------------------------------------------------------------------ C01
 \* every run of every (all-off) variant returns Den(tree, env), value or error
 F01(r) ==
-  {f \in {<<"C01", r.id, vi, ei, sig>> : vi \in Idx(r.vars), ei \in Idx(r.envs), sig \in {"res", "bool", "panic"}} :
+  {f \in {<<"C01", r.id, vi, ei, sig>> : vi \in Idx(r.vars), ei \in Idx(r.envs), sig \in {"res", "bool", "panic", "convenience"}} :
      LET v == r.vars[f[3]]
      IN v.cout = "ok" /\
         LET run == v.runs[f[4]]
@@ -35,6 +35,10 @@ F01(r) ==
         IN ~OutOfDomain(d) /\
            CASE f[5] = "panic" -> IsPanic(run.res) \/ IsPanic(run.bres)
              [] f[5] = "res" -> ~IsPanic(run.res) /\ ~OutcomeEq(run.res, d)
+             \* the top-level eval.Eval(expr, vals): same value; a name missing from vals is a compile
+             \* error there (unknown token), so only fully bound evaluations are compared
+             [] f[5] = "convenience" -> run.conv.t \notin {"skip"} /\ VarsOf(r.tree) \subseteq DOMAIN r.envs[f[4]] /\
+                                        (IsPanic(run.conv) \/ ~OutcomeEq(run.conv, d))
              [] f[5] = "bool" -> ~IsPanic(run.bres) /\ ~IsPanic(run.res) /\
                                  ~(IF Ok(d) /\ IsBool(d) THEN VEq(run.bres, d)
                                    ELSE IF Ok(d) THEN IsErr(run.bres)
@@ -69,12 +73,24 @@ F02(r) ==
      \cup
      \* (iii) Reordering off: the unoptimized value whenever plain evaluation succeeds
      {f \in {<<"C02", r.id, vi, ei, "plain">> : vi \in okv, ei \in dom} :
-        ~r.vars[f[3]].m.ro /\ Ok(d(f[4])) /\ ~IsPanic(res(f[3], f[4])) /\ ~OutcomeEq(res(f[3], f[4]), d(f[4]))}
+        r.vars[f[3]].how # "dirx" /\ ~r.vars[f[3]].m.ro /\ Ok(d(f[4])) /\ ~IsPanic(res(f[3], f[4])) /\ ~OutcomeEq(res(f[3], f[4]), d(f[4]))}
+     \cup
+     \* (iv') directives in arbitrary order: what they mean is Parser!Directives (later pairs override
+     \*       earlier ones, `optimize` sets all four, unset = enabled)
+     {f \in {<<"C02", r.id, vi, 0, "directive-order">> : vi \in Idx(r.vars)} :
+        LET v == r.vars[f[3]] IN
+        v.how = "dirx" /\
+        LET dd == Directives(Lex(v.dirchars, FALSE).toks)
+            eff == [cf |-> dd.opts["constant_folding"] # "off", rn |-> dd.opts["reduce_nesting"] # "off",
+                    fe |-> dd.opts["fast_evaluation"] # "off", ro |-> dd.opts["reordering"] # "off"]
+            b == r.vars[CHOOSE k \in Idx(r.vars) : r.vars[k].how = "opt" /\ r.vars[k].costs = "none" /\ ~r.vars[k].undef /\
+                                                   r.vars[k].ev = "" /\ SameMask(r.vars[k].m, eff)]
+        IN ~dd.err /\ (v.cout # b.cout \/ (v.cout = "ok" /\ (v.dump # b.dump \/ v.table # b.table)))}
      \cup
      \* (iv) directive form == programmatic form: same decompiled program, same table
      {f \in {<<"C02", r.id, vi, 0, "directive">> : vi \in Idx(r.vars)} :
         LET v == r.vars[f[3]] IN
-        v.how # "opt" /\ LET b == r.vars[base(f[3])] IN
+        v.how \in {"dir", "mix"} /\ LET b == r.vars[base(f[3])] IN
                          \/ v.cout # b.cout
                          \/ (v.cout = "ok" /\ (v.dump # b.dump \/ v.table # b.table))}
      \cup
@@ -116,12 +132,14 @@ CountLeaf(t, name) ==
       sum(i, acc) == IF i > n THEN acc ELSE sum(i + 1, acc + CountLeaf(t.kids[i], name))
   IN sum(1, IF (t.k = "v" \/ IsOp(t)) /\ t.v = name THEN 1 ELSE 0)
 Unfoldable == {"x", "y", "z", "n", "m", "s", "l", "e", "f", "g", "h"}   \* variables and undeclared operators
+ToSetQ(q) == {q[i] : i \in 1..Len(q)}
+CfgOf(v) == [stateless |-> ToSetQ(v.stateless), costs |-> <<>>]
 F10(r) ==
   LET cfg == [stateless |-> {"p"}, costs |-> <<>>]
       folded == CFc(r.tree, cfg)
   IN \* (a) during Compile only built-in and stateless-declared operators run
      {f \in {<<"C10", r.id, vi, 0, "compile-call">> : vi \in Idx(r.vars)} :
-        \E k \in Idx(r.vars[f[3]].ccalls) : r.vars[f[3]].ccalls[k] \notin cfg.stateless}
+        \E k \in Idx(r.vars[f[3]].ccalls) : r.vars[f[3]].ccalls[k] \notin CfgOf(r.vars[f[3]]).stateless}
      \cup
      \* (c) a failing constant sub-expression never makes Compile fail
      {f \in {<<"C10", r.id, vi, 0, "compile-fails">> : vi \in Idx(r.vars)} : r.vars[f[3]].cout # "ok"}
@@ -130,7 +148,7 @@ F10(r) ==
      \*     permitted folding (CFc) removes them
      {f \in {<<"C10", r.id, vi, 0, "overfold">> : vi \in Idx(r.vars)} :
         LET v == r.vars[f[3]] IN
-        v.cout = "ok" /\ v.dok /\ \E nm \in Unfoldable : CountLeaf(v.dtree, nm) < CountLeaf(folded, nm)}
+        v.cout = "ok" /\ v.dok /\ \E nm \in Unfoldable \cup {"p"} : CountLeaf(v.dtree, nm) < CountLeaf(CFc(r.tree, CfgOf(v)), nm)}
      \cup
      \* (b) every evaluation performs the calls again: each repetition's log is a
      \*     log of evaluating the decompiled program, h counts on
@@ -160,8 +178,8 @@ N10(r) ==
 Drifts(r) ==
   {f \in {<<"DRIFT", r.id, vi, what>> : vi \in Idx(r.vars), what \in {"opt-tree", "layout", "run", "effects"}} :
      LET v == r.vars[f[3]] IN
-     v.cout = "ok" /\ v.hasprog /\ v.costs = "none" /\ v.ev = "" /\
-     LET T == Optimize(r.tree, v.m, StdCfg(v))
+     v.cout = "ok" /\ v.hasprog /\ v.costs = "none" /\ v.ev = "" /\ v.how # "dirx" /\
+     LET T == Optimize(r.tree, v.m, [stateless |-> {v.stateless[i] : i \in 1..Len(v.stateless)}, costs |-> <<>>])
          L == Layout(T)
      IN CASE f[4] = "opt-tree" -> v.dok /\ ~TreeEq(Unfast(T), v.dtree)
           [] f[4] = "layout" -> ~ProgEq(L, v.prog)
@@ -173,7 +191,7 @@ Drifts(r) ==
                                CountLeaf(r.tree, "h") = 0 /\
                                LET s == Run(v.prog, r.envs[ei]) IN
                                Len(s.eff) # Len(v.runs[ei].eff)}
-NDrift(r) == Card({vi \in Idx(r.vars) : r.vars[vi].cout = "ok" /\ r.vars[vi].hasprog /\
+NDrift(r) == Card({vi \in Idx(r.vars) : r.vars[vi].cout = "ok" /\ r.vars[vi].hasprog /\ r.vars[vi].how # "dirx" /\
                                          r.vars[vi].costs = "none" /\ r.vars[vi].ev = ""})
 
 Findings(r) ==
